@@ -73,7 +73,7 @@ func (f *Frame) execInstr(ins ssa.Instruction, st *State) {
 			return
 		}
 		f.nopanic(st, "nil-deref", x.Pos(), not(eq(p.T, intLit(0))), "pointer is not nil at field access ."+fld.Name())
-		if !isTime(ft) {
+		if !isTime(ft) && !isOpaqueArr(ft) {
 			switch ft.Underlying().(type) {
 			case *types.Struct, *types.Array:
 				f.set(x, &V{Typ: x.Type(), T: u.emb(structKey(stT), fld.Name(), p.T)})
@@ -141,6 +141,10 @@ func (f *Frame) execInstr(ins ssa.Instruction, st *State) {
 		a, b := f.val(x.X), f.val(x.Y)
 		f.set(x, u.nameVal(x.Name(), f.binop(st, x.Op, a, b, x.Type(), x.Pos())))
 	case *ssa.Store:
+		if path := ssaPath(x.Addr); path != "" && strings.Contains(path, ".") {
+			f.curCallArgs = []*V{f.val(x.Val)}
+			f.anchorsAt("store", path, st)
+		}
 		p := f.val(x.Addr)
 		if p.LV == nil {
 			f.nopanic(st, "nil-deref", x.Pos(), not(eq(p.T, intLit(0))), "store through non-nil pointer")
